@@ -793,28 +793,95 @@ func checkDescriptorPairing(c *Check) {
 		c.Cond(ok, rule, "container.handleExecve:received-fds", p.Pos(he.Pos()), "descriptors received with the request are closed when the handler returns", "descriptors received with an execve request are not (always) closed by the container init: they accumulate over runs")
 	}
 	// K. pipe.NewPipe: the read end is closed by the collector (checked in C08), the write end is returned
-	// C. NewSocketPair error paths: both raw descriptors are released
+	// C. NewSocketPair error paths: each raw descriptor is released exactly once on every path to an error return:
+	// closed by number, or handed to a function that wraps it in an *os.File it closes itself (which releases the
+	// number also when that function fails); a socket object that was already made is closed as well.
 	if sp := p.Func("pkg/unixsocket", "NewSocketPair"); sp != nil {
-		n := 0
-		for _, b := range sp.Blocks {
-			ret, ok := b.Instrs[len(b.Instrs)-1].(*ssa.Return)
-			if !ok || !isNilConst(retVal(ret, 0)) {
-				continue
+		wraps := func(f *ssa.Function) (int, bool) {
+			if f == nil {
+				return 0, false
 			}
-			closes := 0
-			for _, in := range b.Instrs {
-				if ci, ok := in.(ssa.CallInstruction); ok {
-					if nm, _ := calleeOf(ci); strings.HasSuffix(nm, ".Close") || strings.HasSuffix(nm, ").Close") {
-						closes++
+			for _, ci := range callInstrs(f) {
+				if nm, _ := calleeOf(ci); nm == "os.NewFile" {
+					if par, ok := stripConv(ci.Common().Args[0]).(*ssa.Parameter); ok {
+						for i, q := range f.Params {
+							if q == par {
+								return i, true
+							}
+						}
 					}
 				}
 			}
-			// the failure of socketpair itself has nothing to close
-			if blockIsErrBranchOf(b, "Socketpair") {
+			return 0, false
+		}
+		var paths [][]*ssa.BasicBlock
+		var walk func(b *ssa.BasicBlock, cur []*ssa.BasicBlock, on map[*ssa.BasicBlock]bool)
+		walk = func(b *ssa.BasicBlock, cur []*ssa.BasicBlock, on map[*ssa.BasicBlock]bool) {
+			if on[b] || len(paths) > 256 {
+				return
+			}
+			cur = append(cur, b)
+			if _, ok := b.Instrs[len(b.Instrs)-1].(*ssa.Return); ok {
+				paths = append(paths, append([]*ssa.BasicBlock{}, cur...))
+				return
+			}
+			on[b] = true
+			for _, sc := range b.Succs {
+				walk(sc, cur, on)
+			}
+			delete(on, b)
+		}
+		if len(sp.Blocks) > 0 {
+			walk(sp.Blocks[0], nil, map[*ssa.BasicBlock]bool{})
+		}
+		n := 0
+		for _, path := range paths {
+			last := path[len(path)-1]
+			ret := last.Instrs[len(last.Instrs)-1].(*ssa.Return)
+			if !isNilConst(retVal(ret, 0)) || blockIsErrBranchOf(last, "Socketpair") {
 				continue
 			}
+			rel := map[string]int{}
+			made, closedObj := 0, 0
+			for bi, b := range path {
+				for _, in := range b.Instrs {
+					ci, ok := in.(ssa.CallInstruction)
+					if !ok {
+						continue
+					}
+					nm, callee := calleeOf(ci)
+					if nm == "syscall.Close" || nm == "golang.org/x/sys/unix.Close" {
+						rel[describe(stripConv(ci.Common().Args[0]))]++
+						continue
+					}
+					if idx, ok := wraps(callee); ok && idx < len(ci.Common().Args) {
+						rel[describe(stripConv(ci.Common().Args[idx]))]++
+						// did it succeed on this path? (the path continues on the err == nil edge)
+						if bi+1 < len(path) && !blockIsErrBranchOf(path[bi+1], callee.Name()) {
+							made++
+						}
+						continue
+					}
+					if strings.HasSuffix(nm, ").Close") && callee != nil && inModule(callee) {
+						closedObj++
+					}
+				}
+			}
 			n++
-			c.Cond(closes == 2, rule, fmt.Sprintf("pkg/unixsocket.NewSocketPair:error-return#%d", n), p.Pos(ret.Pos()), "both ends are closed on this error", fmt.Sprintf("%d of the 2 ends are closed on this error return", closes))
+			var bad []string
+			for _, end := range []string{"local:fd[0]", "local:fd[1]"} {
+				if rel[end] != 1 {
+					bad = append(bad, fmt.Sprintf("%s released %d times", strings.TrimPrefix(end, "local:"), rel[end]))
+				}
+			}
+			if closedObj < made {
+				bad = append(bad, fmt.Sprintf("%d socket object(s) made, %d closed", made, closedObj))
+			}
+			c.Cond(len(bad) == 0, rule, fmt.Sprintf("pkg/unixsocket.NewSocketPair:error-return#%d", n), p.Pos(ret.Pos()), "each end is released exactly once on this error path (closed by number or taken over by the wrapping constructor) and every socket already made is closed",
+				strings.Join(bad, "; ")+" on the path to this error return (a number taken over by "+"NewSocket is released by its wrapper also when NewSocket fails)")
+		}
+		if n == 0 {
+			c.Undecided(rule, "pkg/unixsocket.NewSocketPair:error-returns", p.Pos(sp.Pos()), "no error return found after the socketpair call")
 		}
 	}
 	// D. NewSocket: the temporary *os.File is closed
